@@ -20,6 +20,9 @@ UBlack == <<Hd(1, 1, 0, 0, TRUE), Hd(2, 2, 0, 1, FALSE), Hd(1, 1, 0, 0, FALSE),
 \* three nonces, competitors at each, for finality progress in shards
 UChain == <<Hd(1, 1, 0, 0, FALSE), Hd(1, 2, 0, 0, FALSE), Hd(2, 2, 0, 1, FALSE), Hd(2, 3, 0, 2, FALSE),
             Hd(3, 3, 0, 3, FALSE), Hd(3, 4, 0, 4, FALSE)>>
+\* a competitor (2) whose parent is another competitor of the same nonce with a wrong time stamp (1): see
+\* Inv_C20b_ModuloBlackList in ForkTwin.tla
+UBlackTie == <<Hd(1, 1, 0, 0, TRUE), Hd(1, 1, 0, 1, FALSE), Hd(1, 2, 0, 0, FALSE), Hd(2, 3, 0, 3, FALSE)>>
 \* larger universe for simulation
 UBig   == <<Hd(1, 1, 0, 0, FALSE), Hd(1, 1, 0, 0, FALSE), Hd(1, 2, 1, 0, FALSE),
             Hd(2, 2, 0, 1, FALSE), Hd(2, 3, 0, 2, FALSE), Hd(2, 3, 1, 3, FALSE),
@@ -29,6 +32,7 @@ UBig   == <<Hd(1, 1, 0, 0, FALSE), Hd(1, 1, 0, 0, FALSE), Hd(1, 2, 1, 0, FALSE),
 MCUniversesQuick == {UTie, UEpoch}
 MCUniverses      == {UTie, UEpoch, UBlack, UChain}
 MCUniversesSim   == {UBig, UChain, UBlack}
+MCUniversesDefect == {UBlackTie}
 
 \* behaviour export (see specs/CapLRU/MC_CapLRU.tla)
 GenNext  == Len(hist) < Depth /\ Next
